@@ -154,33 +154,41 @@ _REAL_OK = {}
 
 
 def real_stack(kind="wsgi"):
-    """Is the REAL stack usable in this environment?  (kind: 'wsgi' = real on-disk repositories through the WSGI entry,
-    xv/real_e2e.py; 'aiohttp' = a real aiohttp server on a loopback socket, xv/real_aio.py.)  Probed once per process
-    with a trivial job on a scratch directory.  The real-stack harnesses return (True, "real-unavailable") when the
-    probe fails - they then decide nothing, which the evidence shows as an unwitnessed class - and treat any later
-    failure of the driver as a failure of the check."""
+    """Is the REAL stack usable in this ENVIRONMENT?  (kind: 'wsgi' = real on-disk repositories through the WSGI
+    entry, xv/real_e2e.py; 'aiohttp' = additionally a real aiohttp server on a loopback socket, xv/real_aio.py.)
+    The probe exercises only what the environment must provide - the interpreter of the repository's virtualenv
+    with its third-party packages, a writable scratch directory, the git command line, a loopback socket - and NO
+    xandikos code, so that a defect in the code under analysis can never switch the real-stack harnesses off.  They
+    return (True, "real-unavailable") when the probe fails (and then decide nothing, which the evidence shows as an
+    unwitnessed class); any later failure of a driver is a failure of the check."""
     if kind in _REAL_OK:
         return _REAL_OK[kind]
-    import json
     import os
     import subprocess
-    import xv
-    here = os.path.dirname(os.path.abspath(__file__))
-    env = {"PATH": os.environ.get("PATH", ""), "PYTHONPATH": xv.REPO}
-    ok = False
+    probe = (
+        "import tempfile, os, shutil, subprocess\n"
+        "import dulwich.repo, icalendar, vobject, aiohttp, yarl\n"
+        "d = tempfile.mkdtemp(); open(os.path.join(d, 'x'), 'w').write('x'); shutil.rmtree(d)\n"
+        "assert subprocess.run(['git', '--version'], capture_output=True).returncode == 0\n"
+    )
+    if kind == "aiohttp":
+        probe += (
+            "import asyncio\n"
+            "async def main():\n"
+            "    async def h(r, w):\n"
+            "        w.write(await r.read(1)); await w.drain(); w.close()\n"
+            "    s = await asyncio.start_server(h, '127.0.0.1', 0)\n"
+            "    port = s.sockets[0].getsockname()[1]\n"
+            "    r, w = await asyncio.open_connection('127.0.0.1', port)\n"
+            "    w.write(b'x'); await w.drain()\n"
+            "    assert await r.read(1) == b'x'\n"
+            "    w.close(); s.close()\n"
+            "asyncio.run(asyncio.wait_for(main(), 20))\n"
+        )
     try:
-        if kind == "wsgi":
-            job = {"raw": True, "cal": {}, "ab": {}, "scripts": [[{"m": "OPTIONS", "p": "/user/calendars/cal/"}]]}
-            p = subprocess.run(["/venv/bin/python", os.path.join(here, "real_e2e.py")], input=json.dumps(job),
-                               capture_output=True, text=True, cwd=xv.REPO, env=env, timeout=120)
-            ok = p.returncode == 0 and json.loads(p.stdout)[0][0]["st"] == 200
-            g = subprocess.run(["git", "--version"], capture_output=True, text=True, env=env, timeout=30)
-            ok = ok and g.returncode == 0
-        else:
-            job = {"raw": True, "prefix": "/", "cal": {}, "ab": {}, "scripts": [[{"m": "OPTIONS", "p": "/user/calendars/cal/"}]]}
-            p = subprocess.run(["/venv/bin/python", os.path.join(here, "real_aio.py"), "-"], input=json.dumps(job),
-                               capture_output=True, text=True, cwd=xv.REPO, env=env, timeout=120)
-            ok = p.returncode == 0 and json.loads(p.stdout)[0][0]["st"] == 200
+        p = subprocess.run(["/venv/bin/python", "-c", probe], capture_output=True, text=True, cwd="/",
+                           env={"PATH": os.environ.get("PATH", "")}, timeout=120)
+        ok = p.returncode == 0
     except Exception:
         ok = False
     if not ok:
